@@ -142,6 +142,12 @@ def localize_ids(spec, labels):
 
     zero_label = []
 
+    def has_empty(nodes):
+        return any(n[0] == "" or has_empty(n[1]) for n in nodes)
+
+    if has_empty(spec):
+        zero_label.append("")  # hash("") == 0: the id 0 already belongs to the data ""
+
     def rec(nodes):
         for n in nodes:
             if len(n) > 2 and n[2] and n[2].get("id") is not None:
